@@ -16,7 +16,9 @@
 //!  (3) distinct (operation, argument types) must be mapped to distinct instantiated graphs, and two
 //!      parameterisations of one op on the same arguments must give different results whenever their
 //!      single-op references differ on that input.
+mod userops;
 use crate::common::{catch, stable_msg, Report};
+use userops::{VFold, VNamedMain, VNest, VTwoAux};
 use crate::exec::{first_line, seed_bytes};
 use crate::vals::{arr_value, build_value, num_elems, show, st_signed};
 use ciphercore_base::custom_ops::{run_instantiation_pass, CustomOperation, Not, Or};
@@ -69,6 +71,9 @@ struct Member {
     /// FixedMultiply{debug=true}): members of pairs/triples only in the thorough tier; in the quick tier
     /// the 64-bit ones are still nesting targets
     wide_sigs: Vec<Vec<Type>>,
+    /// operation defined in the harness (c08/userops.rs): enumerated in its own section (all pairs of all
+    /// signatures among the user operations), not crossed with the whole library alphabet
+    user: bool,
 }
 
 impl Member {
@@ -108,7 +113,7 @@ fn table2() -> Type {
 fn alphabet() -> Vec<Member> {
     let mut m: Vec<Member> = vec![];
     let mut add = |base: &'static str, params: String, op: CustomOperation, sigs: Vec<Vec<Type>>, wide: Vec<Vec<Type>>| {
-        m.push(Member { base, params, op, sigs, wide_sigs: wide });
+        m.push(Member { base, params, op, sigs, wide_sigs: wide, user: false });
     };
     let b28 = bits(&[2, 8]);
     let b8 = bits(&[8]);
@@ -311,6 +316,26 @@ fn alphabet() -> Vec<Member> {
                 vec![vec![i4.clone(), i4.clone()]],
                 vec![],
             );
+        }
+    }
+    // user-defined operations (c08/userops.rs)
+    {
+        // odd first dimension: VFold{flip} differs from VFold{!flip} only for an odd number of slices
+        let un_bits = vec![vec![bits(&[3, 8])], vec![bits(&[5])], vec![bits(&[3])]];
+        let mut addu = |base: &'static str, params: String, op: CustomOperation, sigs: Vec<Vec<Type>>| {
+            m.push(Member { base, params, op, sigs, wide_sigs: vec![], user: true });
+        };
+        for flip in [false, true] {
+            addu("VFold", format!("flip={}", flip), CustomOperation::new(VFold { flip }), un_bits.clone());
+        }
+        for k in [1u64, 2] {
+            addu("VNamedMain", format!("k={}", k), CustomOperation::new(VNamedMain { k }), vec![vec![i3.clone()], vec![i0.clone()]]);
+        }
+        for depth in [0u64, 1, 3] {
+            addu("VNest", format!("depth={}", depth), CustomOperation::new(VNest { depth }), un_bits.clone());
+        }
+        for swap in [false, true] {
+            addu("VTwoAux", format!("swap={}", swap), CustomOperation::new(VTwoAux { swap }), un_bits.clone());
         }
     }
     m
@@ -1007,7 +1032,7 @@ fn enumerate_specs(members: &[Member], uses: &[Use], thorough: bool) -> Vec<Spec
     let mut specs = vec![];
     // uses taking part in pair enumeration: thorough = all accepted uses; quick = the first accepted
     // signature of every member
-    let all: Vec<&Use> = uses.iter().filter(|u| thorough || !u.wide).collect();
+    let all: Vec<&Use> = uses.iter().filter(|u| (thorough || !u.wide) && !members[u.member].user).collect();
     let primary: Vec<&Use> = (0..members.len()).filter_map(|m| all.iter().find(|u| u.member == m).copied()).collect();
     let mut pairs: Vec<(&Use, &Use, bool)> = vec![];
     {
@@ -1062,7 +1087,7 @@ fn enumerate_specs(members: &[Member], uses: &[Use], thorough: bool) -> Vec<Spec
     }
     // B. nesting: for every ordered pair (use a, member b) the first signature of b that fits (thorough: all)
     for a in all.iter() {
-        for mb in 0..members.len() {
+        for mb in (0..members.len()).filter(|m| !members[*m].user) {
             for b in uses.iter().filter(|u| u.member == mb) {
                 // quick: 64-bit bit-string signatures are reachable as nesting targets (A2B bridge), the
                 // expensive array signatures of FixedMultiply{debug=true} are not
@@ -1080,7 +1105,8 @@ fn enumerate_specs(members: &[Member], uses: &[Use], thorough: bool) -> Vec<Spec
     }
     // C. thorough: unordered triples of members (first accepted signature of each), once
     if thorough {
-        let first: Vec<&Use> = (0..members.len()).filter_map(|m| uses.iter().find(|u| u.member == m)).collect();
+        let first: Vec<&Use> =
+            (0..members.len()).filter(|m| !members[*m].user).filter_map(|m| uses.iter().find(|u| u.member == m)).collect();
         for i in 0..first.len() {
             for j in i + 1..first.len() {
                 for k in j + 1..first.len() {
@@ -1104,6 +1130,59 @@ fn enumerate_specs(members: &[Member], uses: &[Use], thorough: bool) -> Vec<Spec
                         sp.custom(u.member, args);
                     }
                     specs.push(sp);
+                }
+            }
+        }
+    }
+    // D. user-defined operations: every unordered pair of (operation, signature) uses among them (diagonal
+    // included) once and twice - this contains two parameterisations on one type, one parameterisation on two
+    // types, and uses sharing a nested instantiation - every ordered nesting among them, and each of them
+    // next to / nested with the library operation Not on the same signature
+    {
+        let uu: Vec<&Use> = uses.iter().filter(|u| members[u.member].user).collect();
+        let nots: Vec<&Use> = uses.iter().filter(|u| members[u.member].base == "Not" && !u.wide).collect();
+        let mut pairs: Vec<(&Use, &Use, bool)> = vec![];
+        for i in 0..uu.len() {
+            for j in i..uu.len() {
+                pairs.push((uu[i], uu[j], i == j));
+            }
+            for n in nots.iter() {
+                pairs.push((uu[i], n, false));
+            }
+        }
+        for (a, b, diag) in pairs.into_iter() {
+            let same_sig = a.sig == b.sig;
+            let mut sp = Spec::new(format!("user once {} | {}", use_label(a, members), use_label(b, members)));
+            let ia = sp.inputs(&a.sig);
+            sp.custom(a.member, ia.clone());
+            if !diag {
+                let ib = if same_sig { ia.clone() } else { sp.inputs(&b.sig) };
+                sp.custom(b.member, ib);
+            }
+            specs.push(sp);
+            let mut sp = Spec::new(format!("user twice {} | {}", use_label(a, members), use_label(b, members)));
+            let ia = sp.inputs(&a.sig);
+            sp.custom(a.member, ia.clone());
+            let ib = if !diag {
+                let ib = sp.inputs(&b.sig);
+                sp.custom(b.member, ib.clone());
+                ib
+            } else {
+                ia.clone()
+            };
+            let ia2 = sp.inputs(&a.sig);
+            sp.custom(a.member, ia2);
+            if !diag {
+                sp.custom(b.member, ib);
+            }
+            specs.push(sp);
+        }
+        for a in uu.iter().chain(nots.iter()) {
+            for b in uu.iter().chain(nots.iter()) {
+                if members[a.member].user || members[b.member].user {
+                    if let Some(sp) = nest_spec(a, b, members) {
+                        specs.push(sp);
+                    }
                 }
             }
         }
